@@ -253,6 +253,16 @@ class VariableProjection(Contract):
         return out
 
 
+def _vp_sweep(self, tier, seed):
+    from contracts.common import native_sweep
+
+    return native_sweep(self, [{"m": m, "n": n} for m, n in ((12, 5), (40, 9), (9, 9))], seed=seed)
+
+
+_vp_bounded = VariableProjection.bounded_checks
+VariableProjection.bounded_checks = lambda self, tier, seed: _vp_bounded(self, tier, seed) + _vp_sweep(self, tier, seed)
+
+
 class Nnls(Contract):
     prop = "C01"
     name = "Nnls"
